@@ -1334,7 +1334,8 @@ class Exec(Engine):
         cname = c.key.split(':')[1]
         if self.cur is not None:
             for cal, clauses in self.cur.at_call.items():
-                if cname == cal or cname.endswith('.' + cal):
+                if cname == cal or cname.endswith('.' + cal) or cname.strip('<>').endswith('.' + cal):
+                    self.at_call_fired.add(cal)
                     for cl in _as_clauses(clauses):
                         if self.active(cl):
                             b = dict(self.entry_binds)
@@ -1614,6 +1615,7 @@ class Exec(Engine):
         return a.t == b.t and eqz(a.z, b.z)
 
     def havoc_loop(self, st: State, names, paths):
+        st.via_loop = True
         for nm in names:
             if st.has(nm):
                 v = st.get(nm)
@@ -1954,6 +1956,8 @@ class Exec(Engine):
         line = s.lineno
         pool = self.candidate_pool()
         cname = c.key.split(':')[1].split('#')[0].split('.')[-1]
+        if self.cur is not None and cname in self.cur.at_call:
+            self.at_call_fired.add(cname)
         if self.cur is not None and not self.trial:
             for cal, clauses in self.cur.at_call.items():
                 if cal == cname:
@@ -2108,6 +2112,7 @@ class Exec(Engine):
         node, seg, l0, l1 = self.index.find(fkey)
         self.cur_fn_node = node
         self.inline_depth = 0
+        self.at_call_fired = set()
         ex = Extractor(display=c.display)
         fn = ex.clean(node)
         if c.classmethod_of:
@@ -2151,6 +2156,14 @@ class Exec(Engine):
                 self.check_raise_exit(c, o.st, binds, o.val)
             else:
                 raise Unsupported(f'{o.kind} escaped the function body')
+        # vacuity guard: a clause "asserted at every call of X" that met no call of X proves nothing
+        if not self.trial:
+            for cal, clauses in c.at_call.items():
+                if cal not in self.at_call_fired and any(self.active(cl) and not (cl.serves and all(str(x).startswith('A-') for x in cl.serves)) for cl in _as_clauses(clauses)):
+                    full = f'{fkey}/at[{cal}][no call of `{cal}` was met: the clauses attached to it were never checked]'
+                    if full not in self.obligations:
+                        self.obligations[full] = Obligation(name=full, kind='ensures', fkey=fkey, serves=(), status='open',
+                                                            solver='structural', line=0, detail='', model='at_call key matched no call site')
         return info
 
     def check_exit(self, c: Contract, st: State, binds, val: SV):
